@@ -3,6 +3,7 @@ Symbolic: every field of two (or more) selectors and of one arbitrary packet.  O
 coincides with inclusion of the denoted packet sets; the responder's narrowing returns selectors contained in both
 the proposal and the policy; port <-> selector conversion is exact."""
 import ipaddress
+from collections import namedtuple
 import json
 import types
 
@@ -214,8 +215,62 @@ def h_getport():
     return ['getport']
 
 
+def h_kernel(is_initiator, proto):
+    """the REAL Xfrm.create_child_sa for a CHILD_SA whose selectors have arbitrary port ranges: the two kernel SAs carry exactly the tracked networks
+    and ports, the inbound one mirrored (peer network:peer port -> my network:my port)"""
+    from symx import core
+    from . import world, symcrypto
+    eng = core.engine()
+    m, ik = MODS['message'], MODS['ikesa']
+    TS, T, P = m.TrafficSelector, m.Transform, m.Proposal
+    mk = lambda name, net: TS(TS.Type.TS_IPV4_ADDR_RANGE, TS.IpProtocol.TCP, eng.sym_int(f'{name}.start_port', 0, 65535), eng.sym_int(f'{name}.end_port', 0, 65535),
+                              ipaddress.ip_network(net)[0], ipaddress.ip_network(net)[-1])
+    mine, peer = mk('my', '10.1.0.0/16'), mk('peer', '10.2.3.0/24')
+    for t in (mine, peer):
+        eng.assume(t.start_port <= t.end_port)
+    ref_port = lambda t: core.sym_ite_int(core.sym_and(t.start_port == 0, t.end_port == 65535), 0, t.end_port)
+    trs = [T(T.Type.INTEG, T.IntegId.AUTH_HMAC_SHA2_256_128), T(T.Type.ESN, T.EsnId.NO_ESN)] + ([T(T.Type.ENCR, T.EncrId.ENCR_AES_CBC, 256)] if proto == 'esp' else [])
+    prop = P(1, P.Protocol.ESP if proto == 'esp' else P.Protocol.AH, b'OUT!', trs)
+    child = ik.ChildSa(inbound_spi=b'IN!!', outbound_spi=b'OUT!', original_proposal=prop, proposal=prop, tsi=mine, tsr=peer, mode=ik.xfrm.Mode.TUNNEL, lifetime=-1)
+    fake = types.SimpleNamespace(my_addr=world.IP1, peer_addr=world.IP2)
+    KR = namedtuple('KR', ['sk_ai', 'sk_ar', 'sk_ei', 'sk_er'])
+    keyring = KR(b'ai' * 16, b'ar' * 16, b'ei' * 16, b'er' * 16)
+    E = world.Endpoint('X', None)
+    E.kernel = symcrypto.RecKernel()
+    with E:
+        ik.xfrm.Xfrm.create_child_sa(fake, child, keyring, is_initiator)
+    sas = [x for x in E.kernel.log if x['op'] == 'NEWSA']
+    if len(sas) != 2:
+        return {'class': ['kernel'], 'violation': f'{len(sas)} kernel SAs requested for one CHILD_SA'}
+    out = [x for x in sas if x['spi'] == b'OUT!']
+    inn = [x for x in sas if x['spi'] == b'IN!!']
+    if len(out) != 1 or len(inn) != 1:
+        return {'class': ['kernel'], 'violation': 'the two kernel SAs do not carry the outbound and the inbound SPI'}
+    out, inn = out[0], inn[0]
+    my_net, peer_net = ipaddress.ip_network('10.1.0.0/16'), ipaddress.ip_network('10.2.3.0/24')
+    for sa, what, s_net, d_net, s_t, d_t, src, dst in ((out, 'outbound', my_net, peer_net, mine, peer, world.IP1, world.IP2),
+                                                     (inn, 'inbound', peer_net, my_net, peer, mine, world.IP2, world.IP1)):
+        if sa['src_selector'] != s_net or sa['dst_selector'] != d_net:
+            return {'class': ['kernel'], 'violation': f'{what} SA: selector networks {sa["src_selector"]} -> {sa["dst_selector"]}, tracked {s_net} -> {d_net}'}
+        if sa['src'] != src or sa['dst'] != dst:
+            return {'class': ['kernel'], 'violation': f'{what} SA: endpoints {sa["src"]} -> {sa["dst"]}'}
+        eng.prove(core.sym_and(sa['src_port'] == ref_port(s_t), sa['dst_port'] == ref_port(d_t)),
+                  f'{what} SA: the selector ports are not (source = port of the {"local" if what == "outbound" else "peer"} selector, destination = port of the other one)')
+        if int(sa['ip_proto']) != 6 or int(sa['mode']) != int(ik.xfrm.Mode.TUNNEL):
+            return {'class': ['kernel'], 'violation': f'{what} SA: protocol/mode changed'}
+    want = (b'ei' * 16, b'ai' * 16, b'er' * 16, b'ar' * 16) if is_initiator else (b'er' * 16, b'ar' * 16, b'ei' * 16, b'ai' * 16)
+    got = (out['sk_e'], out['sk_a'], inn['sk_e'], inn['sk_a'])
+    if proto == 'ah':
+        want, got = (want[1], want[3]), (got[1], got[3])
+    if tuple(got) != tuple(want):
+        return {'class': ['kernel'], 'violation': 'the keys of the two directions are not (initiator->responder keys on the SA towards the responder)'}
+    return ['kernel', 'ok']
+
+
 def build_instances(tier):
-    inst = [Instance(f'is_subset types={a},{b}', h_subset, (a, b),
+    inst = [Instance(f'kernel SAs initiator={i} {pr}', h_kernel, (i, pr), must_reach=[('ok', lambda o: o == ['kernel', 'ok'])])
+            for i in (True, False) for pr in ('esp', 'ah')]
+    inst += [Instance(f'is_subset types={a},{b}', h_subset, (a, b),
                      must_reach=[('returns False', lambda o: o == ['subset', False])] +
                                 ([('returns True', lambda o: o == ['subset', True])] if a == b else []))
             for a, b in ((7, 7), (8, 8), (7, 8), (8, 7))]
@@ -245,7 +300,7 @@ def replay_file(path):
     """native replay of a selector counterexample: recompute is_subset and brute-force the packet semantics on the
     boundary packets of both selectors"""
     global MODS
-    if 'initiator response' in json.load(open(path)).get('instance', ''):
+    if json.load(open(path)).get('instance', '').startswith(('initiator response', 'kernel SAs')):
         return common.generic_replay_file(path, lambda: build_instances('thorough') + build_instances('quick'), _load_world_native)
     MODS = common.load_repo(shim=False)
     TS = MODS['message'].TrafficSelector
